@@ -678,6 +678,39 @@ type gen struct {
 
 func (g *gen) pick(l []string) string { return l[g.r.Intn(len(l))] }
 
+// mostly-valid inputs: 85% of the node / session / service-id arguments name something that exists
+func (g *gen) node() string {
+	if g.r.Intn(100) < 85 {
+		if _, ns, _ := g.s.Nodes(nil, nil, ""); len(ns) > 0 {
+			return ns[g.r.Intn(len(ns))].Node
+		}
+	}
+	return g.pick(uNodes)
+}
+
+func (g *gen) sess() string {
+	if g.r.Intn(100) < 85 {
+		if _, ss, _ := g.s.SessionList(nil, nil); len(ss) > 0 {
+			return ss[g.r.Intn(len(ss))].ID
+		}
+	}
+	return sessID(1 + g.r.Intn(3))
+}
+
+func (g *gen) svcOn(node string) string {
+	if g.r.Intn(100) < 85 {
+		if _, ns, _ := g.s.NodeServices(nil, node, nil, ""); ns != nil && len(ns.Services) > 0 {
+			var ids []string
+			for id := range ns.Services {
+				ids = append(ids, id)
+			}
+			sort.Strings(ids)
+			return ids[g.r.Intn(len(ids))]
+		}
+	}
+	return g.pick(uSvcIDs)
+}
+
 func (g *gen) svcSpec() *SvcSpec {
 	id := g.pick(uSvcIDs)
 	sp := &SvcSpec{ID: id, Port: 80 + g.r.Intn(2)}
@@ -703,10 +736,10 @@ func (g *gen) svcSpec() *SvcSpec {
 	return sp
 }
 
-func (g *gen) checkSpec() CheckSpec {
+func (g *gen) checkSpec(node string) CheckSpec {
 	c := CheckSpec{ID: g.pick(uChecks), Status: []int{0, 0, 1, 2}[g.r.Intn(4)], Output: g.r.Intn(2)}
 	if c.ID == "c2" {
-		c.Svc = g.pick(uSvcIDs[:2])
+		c.Svc = g.svcOn(node)
 	}
 	if g.ext && c.ID == "c1" && g.r.Intn(3) == 0 {
 		c.Sess = "lock"
@@ -718,6 +751,9 @@ func (g *gen) next() *Op {
 	g.idx += uint64(1 + g.r.Intn(3))
 	op := &Op{Idx: g.idx}
 	x := g.r.Intn(100)
+	if _, ns, _ := g.s.Nodes(nil, nil, ""); len(ns) == 0 && g.r.Intn(3) > 0 {
+		x = 63 + g.r.Intn(8) // an empty catalog: register something first
+	}
 	switch {
 	case x < 10:
 		op.Kind, op.Key, op.Val, op.Flags = "kv_set", g.pick(uKeys), g.r.Intn(3), uint64(g.r.Intn(2))
@@ -732,14 +768,14 @@ func (g *gen) next() *Op {
 		op.Kind, op.Key = "kv_delcas", g.pick(uKeys)
 		op.Cas = g.kvIndex(op.Key)
 	case x < 26:
-		op.Kind, op.Key, op.Val, op.Session = "kv_lock", g.pick(uKeys), g.r.Intn(3), sessID(1+g.r.Intn(3))
+		op.Kind, op.Key, op.Val, op.Session = "kv_lock", g.pick(uKeys), g.r.Intn(3), g.sess()
 	case x < 28:
-		op.Kind, op.Key, op.Val, op.Session = "kv_unlock", g.pick(uKeys), g.r.Intn(3), sessID(1+g.r.Intn(3))
+		op.Kind, op.Key, op.Val, op.Session = "kv_unlock", g.pick(uKeys), g.r.Intn(3), g.sess()
 	case x < 30:
 		op.Kind = "reap"
 		op.Upto = g.idx - uint64(g.r.Intn(6))
 	case x < 36:
-		op.Kind, op.Sid, op.Node, op.Delete = "sess_create", sessID(1+g.r.Intn(3)), g.pick(uNodes), g.r.Intn(2) == 0
+		op.Kind, op.Sid, op.Node, op.Delete = "sess_create", sessID(1+g.r.Intn(3)), g.node(), g.r.Intn(2) == 0
 		if g.ext {
 			op.Name = []string{"", "lock"}[g.r.Intn(2)]
 		}
@@ -747,16 +783,17 @@ func (g *gen) next() *Op {
 			op.SChk = []string{g.pick(uChecks[:2])}
 		}
 	case x < 39:
-		op.Kind, op.Sid = "sess_destroy", sessID(1+g.r.Intn(3))
+		op.Kind, op.Sid = "sess_destroy", g.sess()
 	case x < 45:
 		op.Kind, op.Node, op.Addr = "node", g.pick(uNodes), 1+g.r.Intn(2)
 		if g.ext && g.r.Intn(2) == 0 {
 			op.NodeID = fmt.Sprintf("aaaaaaaa-0000-0000-0000-00000000000%d", 1+g.r.Intn(2))
 		}
 	case x < 55:
-		op.Kind, op.Node, op.Svc = "svc", g.pick(uNodes), g.svcSpec()
+		op.Kind, op.Node, op.Svc = "svc", g.node(), g.svcSpec()
 	case x < 63:
-		op.Kind, op.Node, op.Checks = "check", g.pick(uNodes), []CheckSpec{g.checkSpec()}
+		op.Kind, op.Node = "check", g.node()
+		op.Checks = []CheckSpec{g.checkSpec(op.Node)}
 	case x < 71:
 		op.Kind, op.Node, op.Addr = "register", g.pick(uNodes), 1+g.r.Intn(2)
 		if g.ext && g.r.Intn(3) == 0 {
@@ -766,20 +803,21 @@ func (g *gen) next() *Op {
 			op.Svc = g.svcSpec()
 		}
 		for n := g.r.Intn(3); n > 0; n-- {
-			c := g.checkSpec()
+			c := g.checkSpec(op.Node)
 			if c.Svc != "" && op.Svc != nil && g.r.Intn(2) == 0 {
 				c.Svc = op.Svc.ID
 			}
 			op.Checks = append(op.Checks, c)
 		}
 	case x < 74:
-		op.Kind, op.Node = "del_node", g.pick(uNodes)
+		op.Kind, op.Node = "del_node", g.node()
 	case x < 79:
-		op.Kind, op.Node, op.SvcID = "del_svc", g.pick(uNodes), g.pick(uSvcIDs)
+		op.Kind, op.Node = "del_svc", g.node()
+		op.SvcID = g.svcOn(op.Node)
 	case x < 83:
-		op.Kind, op.Node, op.ChkID = "del_check", g.pick(uNodes), g.pick(uChecks)
+		op.Kind, op.Node, op.ChkID = "del_check", g.node(), g.pick(uChecks)
 	case x < 86:
-		op.Kind, op.Node, op.Content = "coord", g.pick(uNodes), g.r.Intn(3)
+		op.Kind, op.Node, op.Content = "coord", g.node(), g.r.Intn(3)
 	case x < 90:
 		c := uCfg[g.r.Intn(len(uCfg))]
 		op.Kind, op.Tab, op.Name, op.Content = "cfg_set", c[0], c[1], g.r.Intn(3)
@@ -795,7 +833,7 @@ func (g *gen) next() *Op {
 	case x < 95:
 		op.Kind, op.Sid, op.Content = "pq_set", pqID(1+g.r.Intn(2)), g.r.Intn(2)
 		if g.r.Intn(2) == 0 {
-			op.Session = sessID(1 + g.r.Intn(3))
+			op.Session = g.sess()
 		}
 	case x < 96:
 		op.Kind, op.Sid = "pq_del", pqID(1+g.r.Intn(2))
